@@ -21,7 +21,7 @@ THEOREMS = ["Dfols.C18.radius_src_eq", "Dfols.C18.applyOp_inv", "Dfols.C18.C18_r
             "Dfols.C18.C18_delta_cap_partial", "Dfols.C18.C18_reduce_progress", "Dfols.C18.C18_no_stall",
             "Dfols.C18.C18_table_shape", "Dfols.C18.gen_reduceRho_eq", "Dfols.C18.gen_trUpdate_eq", "Dfols.C18.gen_geomDelta_eq",
             "Dfols.C18.gen_safetyDelta_eq", "Dfols.C18.applyOpR_inv", "Dfols.C18.C18_radii_rounded", "Dfols.C18.gridRounding_consts",
-            "Dfols.C18.C18_src_diag_sites", "Dfols.C18.C18_diag_rectangular", "Dfols.C18.C18_src_no_stall", "Dfols.C18.C18_src_geom_fix_evaluates", "Dfols.C18.C18_src_did_fix_geom_guarded"]
+            "Dfols.C18.C18_src_diag_sites", "Dfols.C18.C18_diag_rectangular", "Dfols.C18.C18_src_no_stall", "Dfols.C18.C18_src_geom_fix_evaluates", "Dfols.C18.C18_src_did_fix_geom_guarded", "Dfols.C18.C18_src_one_row_per_iteration"]
 TRUSTED_EXTRA = [
     "radius theorems: exact arithmetic (C18_radii) and ANY monotone idempotent rounding with rnd x <= 2x after every *, /, sqrt, literal (C18_radii_rounded); that IEEE round-to-nearest satisfies these laws absent overflow/underflow is assumed, not proved; hypothesis 1/250 <= alpha1 <= 1 (the table accepts [0,1]: recorded)",
     "delta <= 1e10 proved for tau = 1 only (with a regulariser delta is divided by tau <= 1)",
@@ -35,6 +35,7 @@ ALLOW = ("bounds", "scaling", "proj", "avg", "soft", "hard", "npt", "growing", "
 def pre_build(ctx):
     import gen_skeleton
     gen_skeleton.regenerate_ctrl(ctx)
+    gen_skeleton.regenerate_solve_main(ctx)
     import gen_skeleton
     gen_skeleton.regenerate(ctx)
     gen_radius.regenerate(ctx)
